@@ -12,11 +12,14 @@
 (***************************************************************************)
 EXTENDS Integers, Sequences, FiniteSets, TLC
 
-CONSTANTS Senders, MaxSend, Pause, Retain, Cap, Waits, Counts, MaxInd, MaxBusy, MaxLost, FailBudget, MaxNow, EnableClose
+CONSTANTS Senders, MaxSend, Pause, Retain, Cap, Waits, Counts, MaxInd, MaxBusy, MaxLost, FailBudget, MaxNow, EnableClose,
+          Ctrls,   \* control fields a busy indication may carry (0 = the client adds a random share to the wait time)
+          Urgent   \* TRUE: client steps and due timers pre-empt every environment step (conformance generation, cf. Tunnel.tla)
 
 VARIABLES now, mu, muq, snd, srv, workers, retained, rxq, sockOpen, inbOpen,
           starting, queued, reader, got, delivered,
-          nsend, nind, nbusy, nlost, nfail, ev, act
+          nsend, nind, nbusy, nlost, nfail, ev, act,
+          tfire    \* the last instant at which a timer of the client fired (history; used by EnvOK only)
 
 vars == <<now, mu, muq, snd, srv, workers, retained, rxq, sockOpen, inbOpen, starting, queued, reader, got, delivered,
           nsend, nind, nbusy, nlost, nfail, ev, act>>
@@ -36,6 +39,16 @@ Min(a, b) == IF a < b THEN a ELSE b
 LastN(s, n) == SubSeq(s, Len(s) - n + 1, Len(s))
 Trim(s) == IF Len(s) > Retain THEN SubSeq(s, Len(s) - Retain + 1, Len(s)) ELSE s
 
+\* Goroutines of the client that are, at this very moment, on their way to queue for the send mutex: resend workers
+\* with messages left and the serve loop with a busy / lost indication at hand. When two of them are, the order in
+\* which they join is decided by the Go runtime: the joining step is labelled "choice" (cf. Tunnel.tla).
+EnqRace ==
+  LET wk == Cardinality({i \in 1..Len(workers) : workers[i].st = "ready" /\ Len(workers[i].todo) > 0})
+      sv == IF srv.pc = "busyw" \/ (srv.pc \in {"idle", "push"} /\ \E i \in 1..Len(rxq) : rxq[i].svc \in {"RoutingBusy", "RoutingLost"})
+            THEN 1 ELSE 0
+  IN wk + sv >= 2
+EnqAct == Act(IF EnqRace THEN "choice" ELSE "enq", 0, 0)
+
 Init ==
   /\ now = 0 /\ mu = Free /\ muq = << >>
   /\ snd = [g \in Senders |-> [st |-> "idle", pid |-> -1]]
@@ -45,6 +58,7 @@ Init ==
   /\ starting = {} /\ queued = << >> /\ reader = "idle" /\ got = -1 /\ delivered = << >>
   /\ nsend = 0 /\ nind = 0 /\ nbusy = 0 /\ nlost = 0 /\ nfail = 0
   /\ ev = NoEv /\ act = Act("init", 0, 0)
+  /\ tfire = -1
 
 -----------------------------------------------------------------------------
 (* Router.Send *)
@@ -103,7 +117,8 @@ SrvTake ==
      /\ CASE f.svc = "RoutingInd" -> srv' = [pc |-> "push", a |-> f.pid, c |-> -1] /\ UNCHANGED muq
           [] f.svc = "RoutingBusy" -> srv' = [pc |-> "busyw", a |-> f.a, c |-> f.c] /\ UNCHANGED muq
           [] f.svc = "RoutingLost" -> srv' = [pc |-> "lost", a |-> f.a, c |-> -1] /\ muq' = Append(muq, SrvL)
-  /\ act' = Act("take", 0, 0)
+  \* "enq": a goroutine joins the queue for the send mutex. Two of them at one instant race in the Go runtime.
+  /\ act' = IF Head(rxq).svc = "RoutingLost" THEN EnqAct ELSE Act("take", 0, 0)
   /\ UNCHANGED <<now, mu, snd, workers, retained, sockOpen, inbOpen, starting, queued, reader, got, delivered, nsend, nind, nbusy, nlost, nfail>>
 
 SrvPush ==
@@ -116,7 +131,7 @@ SrvPush ==
 SrvBusyWait ==
   /\ srv.pc = "busyw"
   /\ srv' = [srv EXCEPT !.pc = "busy"] /\ muq' = Append(muq, SrvB)
-  /\ ev' = [Ev("Hook") EXCEPT !.s = "busy-wait"] /\ act' = Act("internal", 0, 0)
+  /\ ev' = [Ev("Hook") EXCEPT !.s = "busy-wait"] /\ act' = EnqAct
   /\ UNCHANGED <<now, mu, snd, workers, retained, rxq, sockOpen, inbOpen, starting, queued, reader, got, delivered, nsend, nind, nbusy, nlost, nfail>>
 
 \* sendMu.Lock(); waitTime = min(WaitTime + random, cap); AfterFunc(waitTime, Unlock)
@@ -147,7 +162,7 @@ WorkerLock(i) ==
   /\ workers[i].st = "ready" /\ Len(workers[i].todo) > 0
   /\ workers' = [workers EXCEPT ![i].st = "locking"]
   /\ muq' = Append(muq, Wk(i))
-  /\ ev' = NoEv /\ act' = Act("internal", 0, 0)
+  /\ ev' = NoEv /\ act' = EnqAct
   /\ UNCHANGED <<now, mu, snd, srv, retained, rxq, sockOpen, inbOpen, starting, queued, reader, got, delivered, nsend, nind, nbusy, nlost, nfail>>
 
 WorkerTx(i) ==
@@ -174,7 +189,8 @@ ParkReach ==
        /\ starting' = starting \ {p}
        /\ IF reader = "waiting" THEN /\ got' = p /\ reader' = "got" /\ UNCHANGED queued
           ELSE /\ queued' = Append(queued, p) /\ UNCHANGED <<got, reader>>
-  /\ ev' = NoEv /\ act' = Act("internal", 0, 0)
+  \* several helper goroutines on their way to the channel: which one gets there first is the runtime's choice
+  /\ ev' = NoEv /\ act' = Act(IF Cardinality(starting) > 1 THEN "choice" ELSE "internal", 0, 0)
   /\ UNCHANGED <<now, mu, muq, snd, srv, workers, retained, rxq, sockOpen, inbOpen, delivered, nsend, nind, nbusy, nlost, nfail>>
 
 AppRecv ==
@@ -199,7 +215,7 @@ Arrive ==
         /\ rxq' = Append(rxq, [svc |-> "RoutingInd", pid |-> 500 + nind, a |-> -1, c |-> -1])
         /\ act' = Act("ind", 500 + nind, 0)
      \/ /\ nbusy < MaxBusy /\ nbusy' = nbusy + 1 /\ UNCHANGED <<nind, nlost>>
-        /\ \E w \in Waits, c \in {0, 1} :
+        /\ \E w \in Waits, c \in Ctrls :
              /\ rxq' = Append(rxq, [svc |-> "RoutingBusy", pid |-> -1, a |-> w, c |-> c])
              /\ act' = Act("busy", w, c)
      \/ /\ nlost < MaxLost /\ nlost' = nlost + 1 /\ UNCHANGED <<nind, nbusy>>
@@ -212,8 +228,9 @@ Arrive ==
 CloseSock ==
   /\ EnableClose /\ sockOpen
   /\ sockOpen' = FALSE
+  /\ rxq' = << >>       \* frames the serve loop had not taken yet are dropped with the socket (its receiver ends)
   /\ ev' = Ev("SockClose") /\ act' = Act("close", 0, 0)
-  /\ UNCHANGED <<now, mu, muq, snd, srv, workers, retained, rxq, inbOpen, starting, queued, reader, got, delivered, nsend, nind, nbusy, nlost, nfail>>
+  /\ UNCHANGED <<now, mu, muq, snd, srv, workers, retained, inbOpen, starting, queued, reader, got, delivered, nsend, nind, nbusy, nlost, nfail>>
 
 ClientCanStep ==
   \/ srv.pc \in {"push", "busyw"} \/ (srv.pc = "idle" /\ Len(rxq) > 0) \/ (srv.pc = "idle" /\ ~sockOpen /\ Len(rxq) = 0)
@@ -229,14 +246,22 @@ Tick ==
   /\ ev' = NoEv /\ act' = Act("tick", 1, 0)
   /\ UNCHANGED <<mu, muq, snd, srv, workers, retained, rxq, sockOpen, inbOpen, starting, queued, reader, got, delivered, nsend, nind, nbusy, nlost, nfail>>
 
-Next ==
-  \/ \E g \in Senders : AppSend(g) \/ SendTx(g) \/ SendReturn(g)
+\* Urgent (conformance generation): the environment moves only when the client is quiet, and only at instants at
+\* which no timer of the client fired. The router can only be replayed in real time (its send mutex is held across
+\* timers); with this discipline the order of a behaviour's events does not depend on which of "timer" and
+\* "environment step" comes first at an instant, so the replay needs instants to be apart, not simultaneous.
+EnvOK == ~Urgent \/ (~ClientCanStep /\ tfire < now)
+
+Next0 ==
+  \/ \E g \in Senders : (EnvOK /\ AppSend(g)) \/ SendTx(g) \/ SendReturn(g)
   \/ Unlock \/ SrvTake \/ SrvPush \/ SrvBusyWait \/ SrvBusyAcquire \/ SrvLostAcquire \/ SrvExit
   \/ \E i \in 1..Len(workers) : WorkerLock(i) \/ WorkerTx(i)
-  \/ ParkReach \/ AppRecv \/ AppRecvRet
-  \/ Arrive \/ CloseSock \/ Tick
+  \/ ParkReach \/ (EnvOK /\ AppRecv) \/ AppRecvRet
+  \/ (EnvOK /\ (Arrive \/ CloseSock)) \/ Tick
 
-Spec == Init /\ [][Next]_vars
+Next == Next0 /\ tfire' = IF act'.n = "timer" THEN now ELSE tfire
+
+Spec == Init /\ [][Next]_<<vars, tfire>>
 
 -----------------------------------------------------------------------------
 (* Properties on the specification *)
